@@ -78,6 +78,23 @@ partial def showTTerm : TTerm → String
   | .lst args => "(l" ++ String.join (args.map fun a => " " ++ showTTerm a) ++ ")"
   | .set args => "(c" ++ String.join (args.map fun a => " " ++ showTTerm a) ++ ")"
 
+partial def decHTerm : Sexp → D HTerm
+  | .list [.atom "n", n] => return .num (← decInt n)
+  | .list [.atom "v", x] => return .var (← decStr x)
+  | .list [.atom "s", x] => return .sym (← decStr x)
+  | .list (.atom "f" :: name :: args) => return .fn (← decStr name) (← args.mapM decHTerm)
+  | .list (.atom "t" :: args) => return .tuple (← args.mapM decHTerm)
+  | .list (.atom "q" :: args) => return .seq (← args.mapM decHTerm)
+  | s => dfail "theory term" s
+
+partial def showPTerm : PTerm → String
+  | .num n => s!"(n {n})"
+  | .var x => s!"(v {Sexp.quote x})"
+  | .sym x => s!"(s {Sexp.quote x})"
+  | .fn name args => "(f " ++ Sexp.quote name ++ String.join (args.map fun a => " " ++ showPTerm a) ++ ")"
+  | .neg t => s!"(neg {showPTerm t})"
+  | .bin plus l r => s!"(bin {if plus then "+" else "-"} {showPTerm l} {showPTerm r})"
+
 def handle (s : Sexp) : D String :=
   match s with
   | .list [.atom "loop", imin, imax, istop, .list res] => do
@@ -179,6 +196,15 @@ def handle (s : Sexp) : D String :=
         match acceptsAtom p (← decStr name) with
         | .ok r => pure s!"ok {Sexp.quote r.name} {r.shift} {if r.initially then 1 else 0} {if r.future then 1 else 0}"
         | .error e => pure ("rej " ++ e.tag)
+  | .list [.atom "classify", r, l, b, v, sy, n] => do
+      -- (classify isRule headIsLiteral atomIsBoolConst atomValue atomIsSymbolic signNone) -> is_constraint is_normal
+      let sh : StmtShape := { isRule := ← decBool r, headIsLiteral := ← decBool l, atomIsBoolConst := ← decBool b,
+                              atomValue := ← decBool v, atomIsSymbolic := ← decBool sy, signNone := ← decBool n }
+      pure s!"{sh.isConstraint} {sh.isNormal}"
+  | .list [.atom "elemguard", n] => do
+      -- (elemguard nterms) -> rejected in a body &tel atom, rejected in a &del atom
+      let k ← decInt n
+      pure s!"{telElemRejected k} {delElemRejected k}"
   | .list [.atom "theoryguard", neg, cons] => do
       pure s!"{telBodyAccepted (← decBool neg) (← decBool cons)} {delBodyAccepted (← decBool neg) (← decBool cons)}"
   | .list [.atom "print", h, .list syms] => do
@@ -225,6 +251,11 @@ def handle (s : Sexp) : D String :=
         | .atom "eq", [a, b] => pure (makeEqual (← decInt a) (← decInt b))
         | _, _ => dfail "clauses" s
       pure ("(" ++ " ".intercalate (cs.map fun c => "(" ++ " ".intercalate (c.map toString) ++ ")") ++ ")")
+  | .list [.atom "convterm", x] => do
+      -- (convterm <parsed theory term>) : theory_term_to_term
+      match convTerm headTablePy (← decHTerm x) with
+      | .ok p => pure (showPTerm p)
+      | .error e => pure ("ERR " ++ e.tag)
   | .list [.atom "symterm", x] => do
       -- (symterm <symbol>) : the theory term of the symbol, and what create_symbol makes of it
       let sy ← decSym x
